@@ -173,6 +173,7 @@ def run(tier, seed):
         v.violation(f"{k[0]}-{k[1]}", msg, f"# {msg}\n# query #{k[1]}\n" + cases.replay_text(k[0]))
     r.stats["panics_observed_in_process"] = npanic
     stdio_part(r, tier)
+    stale_action_part(r, tier)
     deep_part(r, tier)
     return r.finish(RULE)
 
@@ -234,6 +235,41 @@ def stdio_part(r, tier):
                 c.shutdown()
     shutil.rmtree(base, ignore_errors=True)
     r.stats["stdio_requests_answered"] = nreq
+
+
+def stale_action_part(r, tier):
+    """(fixed) a quick fix requested for a diagnostic that has gone STALE: the document no longer parses and the line the
+    diagnostic's function used to start on now reads something else - `):` before any `(`, no parenthesis at all, only
+    a closing one …  The request is answered (with nothing) and the server keeps serving"""
+    from .. import stdio
+    v = r.verdict
+    conf = "import pytest\n\n@pytest.fixture\ndef made():\n    return 1\n"
+    good = "def test_g():\n    made()\n"
+    heads = ["):  # (helper)", "x): (y", "):(", "a):  b(", ")):", "):", "def test_g)(:", "é):  (", "", "def test_g(", "):\t(", "lambda: (1):"]
+    scs = []
+    for j, h in enumerate(heads):
+        sc = stdio.StdioCase("stale%d" % j, {"conftest.py": conf, "test_g.py": good})
+        sc.open("conftest.py"); sc.open("test_g.py")
+        sc.req("action", "test_g.py", 1, 4)
+        sc.change("test_g.py", h + "\n    made()\ndef broken(:\n")
+        sc.req("action", "test_g.py", 1, 4)
+        sc.req("hover", "test_g.py", 1, 5)
+        sc.change("test_g.py", good)
+        sc.req("action", "test_g.py", 1, 4)
+        sc.meta["head"] = h
+        scs.append(sc)
+    res, mcases, msp = stdio.run_all(r, scs, tag="stale", workers=6)
+    n = 0
+    for (sc, i, step, a, m, k) in res:
+        r.corr_checked += 1
+        n += 1
+        if a in ("DIED", "HUNG", "MISSING") or a.startswith("DIED-AT-START"):
+            msg = (f"stdio case {sc.name}: after the document changed to {sc.meta['head']!r} + …, step {i} {tuple(step[:5])} "
+                   f"is not answered: {a}")
+            v.violation(f"{sc.name}-{i}", msg, f"# {msg}\n" + mcases.replay_text(sc.name)); break
+        if step[0] == "req" and not stdio.agree(a, m):
+            r.corr_bad.append((k, list(step[:5]), a, m))
+    r.stats["stale_quick_fix_requests"] = n
 
 
 def deep_part(r, tier):
